@@ -353,3 +353,49 @@ func VerifC02FailingCallbacks() {
 	}
 	nd.Reach("C02.failingcallbacks")
 }
+
+// VerifC02IncludeHistory: what an engine rendered before — failing includes in particular: a template
+// that includes itself and ends in the nesting error, an include whose file fails inside — leaves no
+// trace: a template with an include renders afterwards as it does on a fresh engine, also the
+// hundredth time.
+func VerifC02IncludeHistory() {
+	root := nd.TempRoot()
+	mk := func() *Engine {
+		e := NewEngine()
+		_, err := e.ParseTemplateAndCache([]byte("I{{ n }}"), root+"/inc.html", 1)
+		nd.Assert(err == nil, "cache-parse")
+		_, err = e.ParseTemplateAndCache([]byte("x{% include 'self.html' %}"), root+"/self.html", 1)
+		nd.Assert(err == nil, "cache-parse-self")
+		_, err = e.ParseTemplateAndCache([]byte("{{ 1 | divided_by: 0 }}"), root+"/bad.html", 1)
+		nd.Assert(err == nil, "cache-parse-bad")
+		return e
+	}
+	b := Bindings{"n": nd.IntIn(0, 9)}
+	render := func(e *Engine, src string) (string, SourceError) {
+		tpl, perr := e.ParseTemplateLocation([]byte(src), root+"/main.html", 1)
+		if perr != nil {
+			return "", perr
+		}
+		return tpl.RenderString(b)
+	}
+	good := "<{% include 'inc.html' %}>"
+	ref, rerr := render(mk(), good)
+	nd.Assert(rerr == nil, "include-renders-on-fresh-engine")
+	e := mk()
+	switch nd.Choice(3) {
+	case 0:
+		_, err := render(e, "{% include 'self.html' %}")
+		nd.Assert(err != nil, "self-include-fails")
+	case 1:
+		for i := 0; i < 3; i++ {
+			_, err := render(e, "{% include 'bad.html' %}")
+			nd.Assert(err != nil, "failing-include-fails")
+		}
+	case 2:
+		_, err := render(e, "{% include 'missing.html' %}")
+		nd.Assert(err != nil, "missing-include-fails")
+	}
+	out, err := render(e, good)
+	nd.Assert(err == nil && out == ref, "include-after-failing-includes-as-on-fresh-engine")
+	nd.Reach("C02.includehistory")
+}
